@@ -9,6 +9,9 @@ import CookModel.Lemmas.SpansMeta
 import CookModel.Lemmas.SpansAnalysis
 import CookModel.Lemmas.SpansBytes
 import CookModel.Lemmas.AstBuild
+import CookModel.Lemmas.SpansUtf8
+import CookModel.Lemmas.SpansTexts
+import CookModel.Lemmas.ReportPrep
 /-
   C04  Every reported source location is in bounds, on char boundaries, faithful.
 
@@ -523,5 +526,186 @@ theorem C04_holds : C04_statement := fun env input =>
    (C04_analysis_meta_labels_ok env input).1, (C04_analysis_meta_labels_ok env input).2,
    fun d hd l hl => (C04_report_labels_sliceable env input).1 d hd d.labels (List.Perm.refl _) l hl,
    fun d hd l hl => (C04_report_labels_sliceable env input).2 d hd d.labels (List.Perm.refl _) l hl⟩
+
+/-! ### row 5a: the front-matter event in the source order; row 5b: fragment order inside every text -/
+
+/-- **The content events of a document, the `YAMLFrontMatter` event included, appear in source order without
+    overlapping.**  `Ev.srcSpanF` is `Ev.srcSpan` extended by the span of the YAML text for the front-matter event.
+    For every input: the spans of the content events of `PullParser` — front matter first if present, then texts,
+    ingredients, cookware, timers, metadata entries (`key.start .. value.end`) and named sections — are pairwise
+    disjoint and increasing in the order emitted (`SrcOrderedF`: each ends at or before the start of every later
+    one), and each is a valid span of the input.  The same for the metadata-only scanner. -/
+theorem C04_events_in_source_order_with_front_matter {α : Type} [Arith α] (cs : CharSpec) (ext : Ext) (s : List Char) :
+    SrcOrderedF (pullEvents (α := α) cs ext s).1.toList ∧
+    (∀ ev ∈ (pullEvents (α := α) cs ext s).1.toList, ∀ sp, ev.srcSpanF = some sp → SpanOK 0 s sp) ∧
+    SrcOrderedF (pullMetaEvents (α := α) cs ext s).1.toList ∧
+    (∀ ev ∈ (pullMetaEvents (α := α) cs ext s).1.toList, ∀ sp, ev.srcSpanF = some sp → SpanOK 0 s sp) :=
+  ⟨pullEvents_srcOrderedF cs ext s,
+   fun ev hev => (C04_event_spans_ok cs ext s ev hev).srcSpanF,
+   pullMetaEvents_srcOrderedF cs ext s,
+   fun ev hev => ((C04_meta_event_spans_ok cs ext s).1 ev hev).srcSpanF⟩
+
+/-- with front matter every content event of the body starts at or after `cooklang_offset`, and the YAML text
+    ends at or before it (the two facts `C04_events_in_source_order_with_front_matter` is assembled from; with
+    `C04_frontmatter_offsets`) -/
+theorem C04_body_events_after_front_matter {α : Type} [Arith α] (cs : CharSpec) (ext : Ext) (s : List Char)
+    (fm : FrontMatter) (h : parseFrontmatter cs s = some fm) :
+    ∃ l : List (Ev α), (pullEvents (α := α) cs ext s).1.toList =
+        .frontMatter (Text.fromStr fm.yamlText fm.yamlOffset) :: l ∧
+      (Text.fromStr fm.yamlText fm.yamlOffset).span.stop ≤ fm.cookOffset ∧
+      ∀ ev ∈ l, ev.notFM ∧ ∀ sp, ev.srcSpan = some sp → fm.cookOffset ≤ sp.start :=
+  pullEvents_frontMatter_first cs ext s fm h
+
+/-! non-vacuity: this input has front matter; `SrcOrderedF` rejects a front-matter event that does not lie
+    before a later text, which `SrcOrdered` (front matter has no `srcSpan`) accepts -/
+example : (parseFrontmatter toyCharSpec "---\na: 1\n---\nb".toList).map (fun fm => (fm.yamlOffset, fm.cookOffset)) =
+    some (4, 13) := by decide
+example : ¬ SrcOrderedF [Ev.frontMatter (α := Rat) ⟨[⟨['a'], 5, false⟩], 5, false⟩,
+    Ev.text ⟨[⟨['b'], 0, false⟩], 0, false⟩] := by
+  intro h
+  have := (List.pairwise_cons.mp h).1 (Ev.text ⟨[⟨['b'], 0, false⟩], 0, false⟩) (by simp) _ _ rfl rfl
+  revert this; decide
+example : SrcOrdered [Ev.frontMatter (α := Rat) ⟨[⟨['a'], 5, false⟩], 5, false⟩,
+    Ev.text ⟨[⟨['b'], 0, false⟩], 0, false⟩] := by
+  simp [SrcOrdered, Ev.srcSpan]
+
+/-- **The fragments of every text of every event are increasing, disjoint, non-empty slices of the input inside
+    the text's span** (document level).  `Ev.texts` lists every `Text` an event carries: the YAML text of the
+    front matter, metadata key and value, section name, step / text-block text (there the text's span IS the
+    event's span), name / alias / note / unit of an ingredient, name / alias / note of a cookware item, name / unit
+    of a timer.  For every input and every such text `t` of every event of `PullParser`: `t.span` is a valid span
+    of the input; consecutive and non-consecutive fragments are ordered, `f.stop ≤ g.offset` for `f` before `g`
+    (so they do not overlap); and every fragment is non-empty, is the input slice at its offset, and lies inside
+    `t.span`.  The same for the metadata-only scanner. -/
+theorem C04_event_text_fragments_ordered {α : Type} [Arith α] (cs : CharSpec) (ext : Ext) (s : List Char) :
+    (∀ ev ∈ (pullEvents (α := α) cs ext s).1.toList, ∀ t ∈ ev.texts,
+      SpanOK 0 s t.span ∧ t.frags.Pairwise (fun f g => f.stop ≤ g.offset) ∧
+      ∀ f ∈ t.frags, f.text ≠ [] ∧ SliceAt 0 s f.offset f.text ∧ t.span.start ≤ f.offset ∧ f.stop ≤ t.span.stop) ∧
+    (∀ ev ∈ (pullMetaEvents (α := α) cs ext s).1.toList, ∀ t ∈ ev.texts,
+      SpanOK 0 s t.span ∧ t.frags.Pairwise (fun f g => f.stop ≤ g.offset) ∧
+      ∀ f ∈ t.frags, f.text ≠ [] ∧ SliceAt 0 s f.offset f.text ∧ t.span.start ≤ f.offset ∧ f.stop ≤ t.span.stop) := by
+  obtain ⟨b, h⟩ := pullEvents_topInvO (α := α) cs ext s
+  obtain ⟨b', h'⟩ := pullMetaEvents_topInvO (α := α) cs ext s
+  exact ⟨fun ev hev t ht => ((h.ok ev hev).texts t ht).spelled, fun ev hev t ht => ((h'.ok ev hev).texts t ht).spelled⟩
+
+/-! non-vacuity: an ingredient event carries four texts; `TextOrd` rejects fragments in the wrong order -/
+example : (Ev.ingredient (α := Rat) ⟨⟨⟨⟨0⟩, ⟨0, 0⟩⟩, none, ⟨[⟨['a'], 1, false⟩], 1, false⟩, some ⟨[⟨['b'], 3, false⟩], 3, false⟩,
+    some ⟨⟨⟨⟨.number (.regular 1), ⟨5, 6⟩⟩, none⟩, some ⟨[⟨['g'], 7, false⟩], 7, false⟩⟩, ⟨5, 8⟩⟩,
+    some ⟨[⟨['n'], 10, false⟩], 10, false⟩⟩, ⟨0, 12⟩⟩).texts.length = 4 := rfl
+example : ¬ TextOrd ⟨[⟨['a'], 5, false⟩, ⟨['b'], 0, false⟩], 0, false⟩ := by
+  intro h
+  have := (List.pairwise_cons.mp h.1).1 ⟨['b'], 0, false⟩ (by simp)
+  revert this; decide
+
+/-! ### `is_char_boundary`, literally -/
+
+/-- On the bytes of an encoded string, Lean core's "first byte of a character" (`UInt8.IsUTF8FirstByte`) is exactly
+    "not a continuation byte `10xxxxxx`" (`isContByte b = false`, i.e. `b < 0x80 ∨ 0xC0 ≤ b`), which is exactly the
+    test `(b as i8) >= -0x40` of Rust's `u8::is_utf8_char_boundary` (`rustIsBoundaryByte`).  (On arbitrary bytes the
+    first two differ on `0xF8 ..= 0xFF`; no encoded string contains those.) -/
+theorem C04_first_byte_iff_not_continuation (input : List Char) (p : Nat) (h : p < input.utf8Encode.size) :
+    ((input.utf8Encode[p]'h).IsUTF8FirstByte ↔ isContByte (input.utf8Encode[p]'h) = false) ∧
+    (rustIsBoundaryByte (input.utf8Encode[p]'h) = !isContByte (input.utf8Encode[p]'h)) ∧
+    (isContByte (input.utf8Encode[p]'h) = true ↔ 0x80 ≤ input.utf8Encode[p]'h ∧ input.utf8Encode[p]'h < 0xC0) :=
+  ⟨utf8b_first_iff_not_cont input p h, (utf8b_rust_iff_not_cont _).1, (utf8b_rust_iff_not_cont _).2⟩
+
+/-- **`Boundary 0 input p` is literally Rust's `str::is_char_boundary(p)`** evaluated on the UTF-8 bytes of the input
+    (`input.utf8Encode` = the bytes of `String.ofList input`): `p == 0`, or — when `p < len` — the byte at `p` passes
+    `(b as i8) >= -0x40`, or — when `p >= len` — `p == len`.  With this every `SpanOK 0 input sp` of this file reads:
+    `sp.start <= sp.end <= input.len()`, `input.is_char_boundary(sp.start)`, `input.is_char_boundary(sp.end)`. -/
+theorem C04_boundary_is_rust_is_char_boundary (input : List Char) (p : Nat) :
+    Boundary 0 input p ↔
+      p = 0 ∨ (if h : p < input.utf8Encode.size then rustIsBoundaryByte (input.utf8Encode[p]'h) = true
+               else p = input.utf8Encode.size) :=
+  utf8b_boundary_iff_rust input p
+
+/-! non-vacuity: the second byte of `é` (0xA9) is a continuation byte and fails Rust's test; 0xF8 is neither a
+    continuation byte nor a first byte (why the statement is about the bytes of an encoded string) -/
+example : ['é'].utf8Encode.data = #[0xC3, 0xA9] ∧ isContByte 0xA9 = true ∧ rustIsBoundaryByte 0xA9 = false ∧
+    rustIsBoundaryByte 0xC3 = true := by decide
+example : isContByte 0xF8 = false ∧ ¬ (0xF8 : UInt8).IsUTF8FirstByte := by decide
+
+/-! ### row 6: the label preparation of `SourceReport::write` (model Side/Report.lean, tied by op `report_prep`) -/
+
+/-- **What `write_report` hands to the renderer.**  For every diagnostic of `parse` and of `parse_metadata`, of every
+    input and environment: the labels passed to `codesnake::Block::new` are the diagnostic's own labels (a
+    permutation of them), sorted by (start, end) — `sort_unstable_by_key(|l| l.0)` with `Span`'s derived order —,
+    each a valid span of the source (`start ≤ end ≤ len`, both ends on character boundaries), and the `k`-th of them
+    carries the colour `COLORS[k mod 7]` (the colour generator wraps around and never indexes its table out of
+    range). -/
+theorem C04_report_labels_prepared (env : Env) (input : Str) :
+    ∀ d, (d ∈ (parseRecipe (α := Rat) env input).diags.toList ∨ d ∈ (parseMetadata (α := Rat) env input).diags.toList) →
+    ∃ cs : List (Span × String), assignColors 0 (sortLabels d.labels) = some cs ∧
+      cs.map (·.1) = sortLabels d.labels ∧
+      (sortLabels d.labels).Perm d.labels ∧
+      (sortLabels d.labels).Pairwise (fun a b => a.start < b.start ∨ (a.start = b.start ∧ a.stop ≤ b.stop)) ∧
+      (∀ l ∈ sortLabels d.labels, SpanOK 0 input l) ∧
+      ∀ k (hk : k < cs.length), reportColors[k % 7]? = some (cs[k].2) := by
+  intro d hd
+  apply rprep_handed_over
+  rcases hd with hd | hd
+  · exact (C04_analysis_labels_ok env input).1 d hd
+  · exact (C04_analysis_meta_labels_ok env input).1 d hd
+
+/-- **The label preparation never panics and never indexes out of range**, for any diagnostic whose labels are valid
+    spans of the source — so for every diagnostic of every report of `parse` / `parse_metadata`
+    (`C04_report_prep_never_panics`).  The modelled panic sites: `COLORS[self.0]`; `idx.0[line_no]` for the lines a
+    label runs over; `debug_assert!(start.line_no <= end.line_no)`; every `&line[a..b]` that cuts a labelled piece out
+    of a line (`start.bytes..end.bytes`, `start.bytes..`, `..end.bytes`).  The result is one of: no labels (no code
+    block), block refused (`Block::new` returned `None`: the message is printed alone), or the block. -/
+theorem C04_report_prep_no_panic_of_valid_labels (src : List Char) (labels : List Span)
+    (h : ∀ l ∈ labels, SpanOK 0 src l) : ∀ site, reportDiag src labels ≠ .panic site :=
+  rprep_no_panic src labels h
+
+theorem C04_report_prep_never_panics (env : Env) (input : Str) :
+    (∀ r ∈ reportPrep input (parseRecipe (α := Rat) env input).diags.toList, ∀ site, r ≠ .panic site) ∧
+    (∀ r ∈ reportPrep input (parseMetadata (α := Rat) env input).diags.toList, ∀ site, r ≠ .panic site) := by
+  constructor
+  · intro r hr
+    simp only [reportPrep, reportOrder, List.mem_map, List.mem_append, List.mem_filter] at hr
+    obtain ⟨d, hd, rfl⟩ := hr
+    have hd' : d ∈ (parseRecipe (α := Rat) env input).diags.toList := by rcases hd with hd | hd <;> exact hd.1
+    exact rprep_no_panic input d.labels ((C04_analysis_labels_ok env input).1 d hd')
+  · intro r hr
+    simp only [reportPrep, reportOrder, List.mem_map, List.mem_append, List.mem_filter] at hr
+    obtain ⟨d, hd, rfl⟩ := hr
+    have hd' : d ∈ (parseMetadata (α := Rat) env input).diags.toList := by rcases hd with hd | hd <;> exact hd.1
+    exact rprep_no_panic input d.labels ((C04_analysis_meta_labels_ok env input).1 d hd')
+
+/-- **When the code block is shown.**  For a diagnostic with valid labels `Block::new` accepts the sorted labels iff
+    each one starts strictly after the start of the previous one and at or after its end (`LabelsApart`); two labels
+    with the same start (for instance the same span twice) or overlapping labels make it return `None`, and then the
+    report prints the message without a code block (src/error.rs:527-530) — it does not panic. -/
+theorem C04_report_block_shown_iff (src : List Char) (labels : List Span) (h : ∀ l ∈ labels, SpanOK 0 src l) :
+    blockAccepts (lineIndex src) none (sortLabels labels) = true ↔ LabelsApart none (sortLabels labels) :=
+  rprep_accepts_iff src labels h
+
+/-- the line index: every line is the slice of the source at its start offset (so line starts and ends are
+    character boundaries), line numbers are monotone in the offset, every offset up to `len` lies on a line -/
+theorem C04_report_line_index (src : List Char) :
+    (∀ p ∈ lineIndex src, SliceAt 0 src p.1 p.2) ∧
+    (∀ off, off ≤ utf8Len src → (reportLineOf (lineIndex src) off).isSome = true) ∧
+    (∀ o1 o2 m1 m2 st1 st2 t1 t2, o1 ≤ o2 → reportLineOf (lineIndex src) o1 = some (m1, st1, t1) →
+      reportLineOf (lineIndex src) o2 = some (m2, st2, t2) → m1 ≤ m2) :=
+  ⟨rprep_line_slice src, rprep_lineOf_cover src,
+   fun o1 o2 m1 m2 st1 st2 t1 t2 hle h1 h2 =>
+     rprep_lineOfGo_mono (rprep_withStarts_ok 0 (splitLines src)) 0 hle h1 h2⟩
+
+/-! non-vacuity: the label pair of "A timer cannot have a note" (`3..6`, `3..3`) is refused; a label over two
+    lines gives two pieces; a tab is shown as four spaces; a label that ends inside `é` reaches the slice panic (the
+    defect repaired in 87ff930); the eighth label gets the first colour again; the sort orders by start, then end -/
+example : blockAccepts (lineIndex "~é(x)".toList) none [⟨3, 3⟩, ⟨3, 6⟩] = false := by decide
+example : blockAccepts (lineIndex "~é(x)".toList) none [⟨0, 3⟩, ⟨3, 6⟩] = true := by decide
+example : (match labelPieces "a\nb".toList (lineIndex "a\nb".toList) ⟨0, 3⟩ "M" with
+      | .ok ps => some ps | .error _ => none) = some [⟨0, "M", ['a']⟩, ⟨1, "M", ['b']⟩] := by decide
+example : expandTabs ['a', '\t'] = "a    ".toList := by decide
+example : (match labelPieces "~é(x)".toList (lineIndex "~é(x)".toList) ⟨2, 3⟩ "M" with
+      | .ok _ => none | .error e => some e) = some "codesnake: slice of a line at label offsets" := by decide
+example : (assignColors 0 [⟨0,0⟩,⟨1,1⟩,⟨2,2⟩,⟨3,3⟩,⟨4,4⟩,⟨5,5⟩,⟨6,6⟩,⟨7,7⟩]).map (fun cs => cs.map (·.2)) =
+    some ["BrightMagenta", "BrightGreen", "BrightCyan", "BrightBlue", "BrightGreen", "BrightYellow", "BrightRed",
+      "BrightMagenta"] := by decide
+example : sortLabels [⟨4, 5⟩, ⟨0, 1⟩, ⟨0, 0⟩] = [⟨0, 0⟩, ⟨0, 1⟩, ⟨4, 5⟩] := by
+  simp [sortLabels, List.mergeSort, List.MergeSort.Internal.splitInTwo, Span.le]
+example : lineIndex "ab\n\nc".toList = [(0, ['a', 'b']), (3, []), (4, ['c'])] := by decide
 
 end Cook
